@@ -136,6 +136,14 @@ func countCase(run *common.Run, r resultT, cls string) {
 		return
 	}
 	run.Hit("ctx:" + c.Ctx)
+	if c.Ctx == "condloop" {
+		callee := c.Callee
+		if c.Dir == "meth" {
+			callee = "method:" + c.Recv
+		}
+		run.Hit("condloop:" + c.CondOp)
+		run.Hit("condloop-callee:" + callee)
+	}
 	run.Hit(fmt.Sprintf("params:%d", len(c.Sig.In)))
 	run.Hit(fmt.Sprintf("results:%d", len(c.Sig.Out)))
 	if c.Sig.Variadic {
